@@ -200,4 +200,93 @@ def RL.wait (r : RL) (now ms buf : Nat) : Option (RL × Nat × PollOut) :=
       else some (r1, now + ms, .pending)
     | _, _ => some (r1, now + ms, .pending)
 
+/-! ### Content level: *which* bytes `poll_read` hands over
+
+`RateLimited` has no buffer of its own: `poll_read` lets the inner reader write into the
+caller's `ReadBuf` and returns at once; the bucket is charged afterwards and throttles the
+*next* poll.  While the refill sleep is pending the inner reader is not polled at all. -/
+
+/-- What the inner reader answers once its ready bytes are used up. -/
+inductive Tail where
+  /-- nothing yet: `Poll::Pending` -/
+  | open
+  /-- end of stream: `Ready(Ok(()))` with nothing written -/
+  | eof
+  /-- `Ready(Err(e))`, `code` identifies the `io::ErrorKind` -/
+  | err (code : Nat)
+deriving DecidableEq, Repr
+
+/-- The inner reader: bytes ready now (in stream order) and what follows them. -/
+structure Inner where
+  data : List UInt8
+  tail : Tail
+deriving DecidableEq, Repr
+
+/-- `RateLimited<S>` together with its inner reader `S`.  `rl.avail` is not used here: the
+bytes ready are `inner.data`. -/
+structure RLC where
+  rl : RL
+  inner : Inner
+deriving DecidableEq, Repr
+
+inductive PollOutC where
+  /-- `Ready(Ok(()))` with these bytes appended to the caller's buffer -/
+  | ready (bytes : List UInt8)
+  /-- `Ready(Ok(()))` with nothing appended although the buffer has room: end of stream -/
+  | eof
+  /-- `Ready(Err(e))` -/
+  | err (code : Nat)
+  | pending
+deriving DecidableEq, Repr
+
+/-- `poll_read` when the inner reader has no bytes ready and answers `eof` (`code = none`)
+or an error: the config pick-up and the refill wait come first; an error returns through
+`ready!(…)?` before the bucket is touched; end of stream is charged as a read of 0 bytes. -/
+def RLC.pollTerminal (r : RLC) (now : Nat) (code : Option Nat) : Option (RLC × PollOutC) :=
+  let out : PollOutC := match code with
+    | none => .eof
+    | some c => .err c
+  let rl := r.rl.applyCfg now
+  match rl.bucket with
+  | none => some (⟨rl, r.inner⟩, out)
+  | some b =>
+    if Reader.blocked rl.sleepUntil now then some (⟨rl, r.inner⟩, .pending) else
+    let rl := { rl with sleepUntil := none }
+    match code with
+    | some _ => some (⟨rl, r.inner⟩, out)
+    | none =>
+      match b.consume 0 now with
+      | none => none
+      | some (b', none) => some (⟨{ rl with bucket := some b' }, r.inner⟩, out)
+      | some (b', some d) =>
+        some (⟨{ rl with bucket := some b', sleepUntil := some d, limited := rl.limited + 1 }, r.inner⟩, out)
+
+/-- `poll_read` at time `now` with `buf` bytes of buffer space, content level. -/
+def RLC.poll (r : RLC) (now buf : Nat) : Option (RLC × PollOutC) :=
+  match r.inner.data, r.inner.tail with
+  | [], .eof => r.pollTerminal now none
+  | [], .err c => r.pollTerminal now (some c)
+  | data, tail =>
+    -- bytes ready, or nothing ready yet: the count-level `RL.poll` decides how many
+    match ({ r.rl with avail := data.length }).poll now buf with
+    | none => none
+    | some (rl', .ready n) => some (⟨rl', ⟨data.drop n, tail⟩⟩, .ready (data.take n))
+    | some (rl', .pending) => some (⟨rl', ⟨data, tail⟩⟩, .pending)
+
+/-- `tokio::time::timeout(ms, reader.read(buf))`, content level (see `RL.wait`). -/
+def RLC.wait (r : RLC) (now ms buf : Nat) : Option (RLC × Nat × PollOutC) :=
+  match r.poll now buf with
+  | none => none
+  | some (r1, .pending) =>
+    match r1.rl.bucket, r1.rl.sleepUntil with
+    | some _, some d =>
+      if d ≤ now + ms then
+        match r1.poll d buf with
+        | none => none
+        | some (r2, .pending) => some (r2, now + ms, .pending)
+        | some (r2, out) => some (r2, d, out)
+      else some (r1, now + ms, .pending)
+    | _, _ => some (r1, now + ms, .pending)
+  | some (r1, out) => some (r1, now, out)
+
 end IrohModel.C09
